@@ -108,75 +108,7 @@ func c09Unjournaled(c *Ctx, t *c09Tables) {
 	// ------------------------------------------------------------ J4
 	c.Rule("C09.J4", "NO-EFFECT-BEFORE", "every registered staking transaction handler (there is no snapshot around them) changes state only on its success tail: after the first state change no error return is reachable, except under the error of a callee that itself mutates only when it succeeds. This keeps the un-journaled mutators of F12 (and every other mutator) from leaving a partial effect behind a failed transaction")
 	c.Min(9)
-	mut := stakingMutationSummary(w)
-	// handlers registered in init
-	var handlers []*ssa.Function
-	initFn := w.SSAPkg("staking").Func("init")
-	seen := map[*ssa.Function]bool{}
-	var scan func(fn *ssa.Function)
-	scan = func(fn *ssa.Function) {
-		if fn == nil || seen[fn] || fn.Blocks == nil {
-			return
-		}
-		seen[fn] = true
-		for _, b := range fn.Blocks {
-			for _, in := range b.Instrs {
-				if mu, ok := in.(*ssa.MapUpdate); ok {
-					if u, ok := mu.Map.(*ssa.UnOp); ok {
-						if g, ok := u.X.(*ssa.Global); ok && g.Name() == "handlers" {
-							if f, ok := stripConv(mu.Value).(*ssa.Function); ok {
-								handlers = append(handlers, f)
-							}
-						}
-					}
-				}
-				if ci, ok := in.(ssa.CallInstruction); ok {
-					if callee := ci.Common().StaticCallee(); callee != nil && callee.Pkg == fn.Pkg && strings.HasPrefix(callee.Name(), "init") {
-						scan(callee)
-					}
-				}
-			}
-		}
-	}
-	scan(initFn)
-	sort.Slice(handlers, func(i, j int) bool { return handlers[i].Name() < handlers[j].Name() })
-	if len(handlers) == 0 {
-		c.Undecided("staking.handlers", 0, "the handler registry could not be read from the package initialiser")
-	}
-	// helper functions that mutate and return an error are judged by the same rule
-	judged := map[*ssa.Function]bool{}
-	onlyOnNil := map[*ssa.Function]bool{}
-	var judge func(fn *ssa.Function) bool
-	judge = func(fn *ssa.Function) bool {
-		if judged[fn] {
-			return onlyOnNil[fn]
-		}
-		judged[fn] = true
-		var effects []ssa.Instruction
-		nilOnly := map[ssa.Instruction]bool{}
-		for _, ci := range callInstrs(fn) {
-			o := calleeObj(ci)
-			if isStateDBMethod(o) && stateMutatorNames[o.Name()] {
-				effects = append(effects, ci)
-				continue
-			}
-			if callee := ci.Common().StaticCallee(); callee != nil && mut[callee] {
-				effects = append(effects, ci)
-				if errIdx(ci) >= 0 && judge(callee) {
-					nilOnly[ci] = true
-				}
-			}
-		}
-		ok, why := noFailureAfterEffects(w, fn, effects, nilOnly)
-		c.sites += len(effects)
-		c.sawFunc(fname(fn))
-		c.Check(fname(fn)+"#mutates-only-on-success-tail", fn.Pos(), ok, ifelse(ok, fmt.Sprintf("%d state changes, none followed by a failure", len(effects)), why+": the transaction is reported failed but part of its effect stays (staking records and pending relationships are not journaled, and no snapshot surrounds the handler)"))
-		onlyOnNil[fn] = ok
-		return ok
-	}
-	for _, h := range handlers {
-		judge(h)
-	}
+	stakingHandlersSuccessTail(c, w)
 
 	// ------------------------------------------------------------ J5
 	c.Rule("C09.J5", "CONFINED", "the un-journaled mutators (AddStakingRecord, AddPendingRelationship, ResetStakingTrie, the reward-pool setters of ValKindStat, in-place edits of WithdrawRecord.Finished / FinalBalance) are not reachable from the EVM, the only code that takes snapshots and reverts to them; their callers are tabled")
@@ -247,5 +179,79 @@ func c09Variants() []Variant {
 		{Name: "truncate-with-other-index", File: "core/state/statedb.go", Old: "	st.valValidRevisions = st.valValidRevisions[:valIdx]", New: "	st.valValidRevisions = st.valValidRevisions[:idx]", Rule: "C09.J3", Construct: "truncation"},
 		{Name: "forget-one-reset", File: "core/state/statedb.go", Old: "	st.validRevisions = st.validRevisions[:0]\n	st.valValidRevisions = st.valValidRevisions[:0]\n", New: "	st.validRevisions = st.validRevisions[:0]\n", Rule: "C09.J3", Construct: "clearJournalAndRefund"},
 		{Name: "record-before-balance-check", File: "staking/handler.go", Old: "	db := ctx.State\n	if !core.CanTransfer(db, ctx.Msg.From(), tx.Value) {\n		return errInsufficientBalanceForDeposit\n	}\n", New: "	db := ctx.State\n	db.AddStakingRecord(common.Address{}, tx.MainAddress, ctx.Msg.TxHash(), nil)\n	if !core.CanTransfer(db, ctx.Msg.From(), tx.Value) {\n		return errInsufficientBalanceForDeposit\n	}\n", Rule: "C09.J4", Construct: "handleDeposit"},
+	}
+}
+
+// stakingHandlersSuccessTail: every registered staking handler changes state
+// only on its success tail. Shared by C09.J4 and C17.T6.
+func stakingHandlersSuccessTail(c *Ctx, w *World) {
+	mut := stakingMutationSummary(w)
+	// handlers registered in init
+	var handlers []*ssa.Function
+	initFn := w.SSAPkg("staking").Func("init")
+	seen := map[*ssa.Function]bool{}
+	var scan func(fn *ssa.Function)
+	scan = func(fn *ssa.Function) {
+		if fn == nil || seen[fn] || fn.Blocks == nil {
+			return
+		}
+		seen[fn] = true
+		for _, b := range fn.Blocks {
+			for _, in := range b.Instrs {
+				if mu, ok := in.(*ssa.MapUpdate); ok {
+					if u, ok := mu.Map.(*ssa.UnOp); ok {
+						if g, ok := u.X.(*ssa.Global); ok && g.Name() == "handlers" {
+							if f, ok := stripConv(mu.Value).(*ssa.Function); ok {
+								handlers = append(handlers, f)
+							}
+						}
+					}
+				}
+				if ci, ok := in.(ssa.CallInstruction); ok {
+					if callee := ci.Common().StaticCallee(); callee != nil && callee.Pkg == fn.Pkg && strings.HasPrefix(callee.Name(), "init") {
+						scan(callee)
+					}
+				}
+			}
+		}
+	}
+	scan(initFn)
+	sort.Slice(handlers, func(i, j int) bool { return handlers[i].Name() < handlers[j].Name() })
+	if len(handlers) == 0 {
+		c.Undecided("staking.handlers", 0, "the handler registry could not be read from the package initialiser")
+	}
+	// helper functions that mutate and return an error are judged by the same rule
+	judged := map[*ssa.Function]bool{}
+	onlyOnNil := map[*ssa.Function]bool{}
+	var judge func(fn *ssa.Function) bool
+	judge = func(fn *ssa.Function) bool {
+		if judged[fn] {
+			return onlyOnNil[fn]
+		}
+		judged[fn] = true
+		var effects []ssa.Instruction
+		nilOnly := map[ssa.Instruction]bool{}
+		for _, ci := range callInstrs(fn) {
+			o := calleeObj(ci)
+			if isStateDBMethod(o) && stateMutatorNames[o.Name()] {
+				effects = append(effects, ci)
+				continue
+			}
+			if callee := ci.Common().StaticCallee(); callee != nil && mut[callee] {
+				effects = append(effects, ci)
+				if errIdx(ci) >= 0 && judge(callee) {
+					nilOnly[ci] = true
+				}
+			}
+		}
+		ok, why := noFailureAfterEffects(w, fn, effects, nilOnly)
+		c.sites += len(effects)
+		c.sawFunc(fname(fn))
+		c.Check(fname(fn)+"#mutates-only-on-success-tail", fn.Pos(), ok, ifelse(ok, fmt.Sprintf("%d state changes, none followed by a failure", len(effects)), why+": the transaction is reported failed but part of its effect stays (staking records and pending relationships are not journaled, and no snapshot surrounds the handler)"))
+		onlyOnNil[fn] = ok
+		return ok
+	}
+	for _, h := range handlers {
+		judge(h)
 	}
 }
